@@ -25,6 +25,12 @@ CHECKS = {
             'input values from one deterministic table; N <= 13 samples; quick tier covers torch/jax/fortran on a slice only', EXPL, 'DESIGN.md 3 C08'),
     'C09': ('exploration', 'ramp sources x 1-3 targets x per-edge delay in {none, 2dt, 3dt, 2.4dt, 2.6dt, 5dt} over shared-source, parallel, shared-target and feedback topologies x vectorize: every euler trajectory of run() compared row by row with the reference recurrence with explicit history (src[k-D], zero before start, undelayed edges read src[k])',
             'delays below two steps are outside the property; Connectivity (matrix) delays are covered by C16; one dt', EXPL, 'DESIGN.md 3 C09'),
+    'C10': ('exploration', 'operators with 1-3 state variables and 1-2 (3) delayed terms over every (variable, delay as named constant or literal, notation past(x,tau) / x(t-tau), coefficient sign) combination with the delayed variable at every position, for the euler (step counter) and scipy conventions: the compiled function is called with a hand-made quadratic history (distinct per component) at 6 probe times and must equal the reference reading component x of hist(t_time - tau); delayed edges under an adaptive solver; run() vs the method-of-steps solution and vs the exact history of a ramp with delays that are not multiples of the step',
+            'default backend only; three delay values; method-of-steps comparison on one scalar equation', EXPL, 'DESIGN.md 3 C10'),
+    'C11': ('exploration', 'edges with (delay, spread) from a table whose (d/s)^2 hits {1, 2, 2.4->2, 2.6->3, 4}, mixed with undelayed edges, 1-3 edges sharing a source or a target, vectorize on/off, dde_approx=n on plain delays, euler and scipy: every trajectory of a user variable vs the explicitly written chain of n first-order stages of rate n/d (one per edge); unit steady-state gain on a constant source (Connectivity form: C16)',
+            'two base topologies; one step size', EXPL, 'DESIGN.md 3 C11'),
+    'C12': ('exploration', 'scalar models: operators covering sigmoid, absv, every transcendental and algebraic intermediates, library circuits with 1-2 edges and edge templates, delayed operators with the delayed variable at every position, 1-2 distinct delays, additive and multiplicative delayed terms, sparse on/off (thorough: jax): J at 3 points vs central differences of the function from get_run_func of an identically built model in the same state ordering, history matrices vs differences with respect to the state delayed by each distinct delay',
+            'finite differences with h = 1e-6 (tolerance 1e-6 relative); auto-07p DFDU/DFDP blocks are decided by C18', EXPL, 'DESIGN.md 3 C12'),
     'C13': ('model_checking', 'breadth-first search over all sequences (depth 2 quick, 3 thorough) of an operation alphabet of 50 public API calls on 7 models engineered to collide (same operator name, same structure, shared NodeTemplate object, YAML cache, edges+inputs); every history replayed on the real code from the import-time state, states hashed over all module-level containers + working directory + stored templates; every op must observe what it observes as the first op of a pristine interpreter, and functions returned earlier are re-evaluated after every step',
             'histories longer than the bound; Fortran file-name re-use is not explored; worker reset is cross-checked against fresh interpreters on every run', MC, 'DESIGN.md 3 C13'),
     'C14': ('model_checking', 'seeds {flat, depth-1, depth-2, shared operators with per-node overrides, YAML-derived} x every sequence of <=1 (thorough 2) legitimate mutators x every sequence of <=2 (3 on a sub-alphabet) of the 14 listed read-only / copy-making operations; after every operation the canonical dump of the template (equations, declared values, per-node variations, edges, edge map, object sharing, state bookkeeping) must be unchanged, at the end the vector field must equal that of a pristine twin and repeated run(in_place=False) must return identical frames',
